@@ -27,6 +27,7 @@ type ResultSpec struct {
 	Code     uint16              `json:"code"`
 	TsNano   int64               `json:"ts_nano"`
 	ZoneMin  int                 `json:"zone_min"` // offset east of UTC in minutes; 0 = UTC
+	FarYear  int                 `json:"far_year,omitempty"` // ≠ 0: the timestamp is 2 January of that year (outside the int64-nanosecond range; only gob can carry it, JSON refuses years > 9999)
 	Latency  int64               `json:"latency"`
 	BytesOut uint64              `json:"bytes_out"`
 	BytesIn  uint64              `json:"bytes_in"`
@@ -46,6 +47,9 @@ func (s ResultSpec) ToResult() vegeta.Result {
 		Attack: s.Attack, Seq: s.Seq, Code: s.Code, Timestamp: time.Unix(0, s.TsNano).In(loc),
 		Latency: time.Duration(s.Latency), BytesOut: s.BytesOut, BytesIn: s.BytesIn, Error: s.Error,
 		Body: s.Body, Method: s.Method, URL: s.URL,
+	}
+	if s.FarYear != 0 {
+		r.Timestamp = time.Date(s.FarYear, 1, 2, 3, 4, 5, 6, time.UTC)
 	}
 	if s.Headers != nil {
 		r.Headers = http.Header{}
